@@ -12,7 +12,7 @@ Direction: accepted by gunicorn => accepted by the strict reference with the sam
 from types import SimpleNamespace
 from typing import List
 
-from engine.harness_api import Ob, setup, kf_ok
+from engine.harness_api import Ob, setup, kf_ok, pick
 setup(shim=True)
 
 from gunicorn.http.body import Body, ChunkedReader, EOFReader, LengthReader  # noqa: E402
@@ -24,6 +24,8 @@ from gunicorn.http.message import Request  # noqa: E402
 from gunicorn.http.parser import RequestParser  # noqa: E402
 from gunicorn.http.unreader import IterUnreader  # noqa: E402
 from oracles import rfc9112 as ref  # noqa: E402
+
+from harness.lex import req_lex, req_lex_smt  # noqa: E402,F401  (z3-direct obligation C01.lex_smt)
 
 PROPERTY = "C01"
 USES_SHIM = True
@@ -238,6 +240,39 @@ def chunk_size_twin(line: bytes) -> bool:
     except (InvalidChunkSize, NoMoreData):
         return True
     return size <= 9            # witness: a multi-digit / letter size is accepted
+
+
+# ---- 2b. chunk-size line over an alphabet of bytes that number parsers treat specially ---------------------------------
+# int(x, 16), bytes.isalnum/isdigit, strip() and friends accept more than HEXDIG: prefixes (0x), signs, underscores,
+# surrounding whitespace.  The fully symbolic obligation above covers every byte value up to 3-4 bytes; this one trades the
+# alphabet for length, so that multi-character spellings ("0x1f", "1_0", "+1f", " 1f") are inside the bound whatever
+# library call a rewrite of the check uses (library calls on symbolic bytes may be out of CrossHair's reach).
+SIZE_ALPHA = [b"0", b"1", b"a", b"F", b"x", b"_", b"+", b"-", b" ", b";", b"g", b"X", b"\t", b"9", b"f", b"A", b"o", b"\x00",
+              b"\x80", b"\xb2", b"\x0b", b"."]
+
+
+def chunk_size_alpha(i0: int, i1: int, i2: int, i3: int, i4: int) -> bool:
+    """
+    pre: 0 <= i0 < CASE["k"] and 0 <= i1 < CASE["k"] and 0 <= i2 < CASE["k"] and 0 <= i3 < CASE["k"] and 0 <= i4 < CASE["k"]
+    post: __return__
+    """
+    k, n = CASE["k"], CASE["n"]
+    idx = [i0, i1, i2, i3, i4][:n]
+    line = b"".join(SIZE_ALPHA[pick(i, 0, k - 1)] for i in idx)
+    r = mk_req()
+    cr = object.__new__(ChunkedReader)
+    cr.req = r
+    u = IterUnreader([line + b"\r\nXY"])
+    try:
+        size, rest = cr.parse_chunk_size(u)
+    except InvalidChunkSize:
+        return True
+    except NoMoreData:
+        return True
+    want = ref.chunk_size_line(line)
+    if size == 0:
+        return want == 0
+    return want == size and rest == b"XY"
 
 
 # ---- 3. chunk data + terminator -------------------------------------------------------------
@@ -565,6 +600,11 @@ OBLIGATIONS = [
     Ob("C01.chunk_size", "chunk_size", cases={"quick": [{"n": n} for n in (0, 1, 2, 3)],
                                              "thorough": [{"n": n} for n in (0, 1, 2, 3, 4)]},
        timeout=1200, bound="chunk-size line of 0..3 (thorough 4) arbitrary bytes without CRLF"),
+    Ob("C01.chunk_size_alpha", "chunk_size_alpha",
+       cases={"quick": [{"n": 3, "k": 13}, {"n": 4, "k": 6}], "thorough": [{"n": 3, "k": 22}, {"n": 4, "k": 10}, {"n": 5, "k": 6}]},
+       timeout=1800,
+       bound="chunk-size lines of 3 bytes over the first 13 of the alphabet 0 1 a F x _ + - SP ; g X HTAB 9 f A o NUL 0x80 0xb2 VT . "
+             "and of 4 bytes over its first 6 (thorough: 3 over all 22, 4 over 10, 5 over 6)"),
     Ob("C01.chunk_size.twin", "chunk_size_twin", cases=[{"n": 2}], expect="refute", timeout=60),
     Ob("C01.chunk_body", "chunk_body",
        cases={"quick": [{"size": s, "n": n} for s in (1, 2) for n in range(0, 5)],
@@ -593,4 +633,9 @@ OBLIGATIONS = [
     Ob("C01.boundary", "boundary", cases={"quick": [{"n": 2, "tail": 2}], "thorough": [{"n": 4, "tail": 2}]},
        timeout=1800, bound="Content-Length n<=2 (thorough 4), app reads k<=n+1 bytes, symbolic tail <=2 bytes, 1 cut"),
     Ob("C01.boundary.twin", "boundary_twin", cases=[{"n": 3, "tail": 2}], expect="refute", timeout=60),
+    Ob("C01.lex_smt", "req_lex", smt="req_lex_smt", cases=[{"permit": False}, {"permit": True}], timeout=300,
+       bound="strings of ANY length over latin-1 (what a request can carry): the regex gates of parse_headers / parse_request_line "
+             "(pattern and applied method read from the source) accept exactly RFC 9110 tokens as field names, values free of "
+             "NUL/CR/LF, conventional (or, if permitted, any token) methods, and 'HTTP/' DIGIT '.' DIGIT; z3 regex inclusion both "
+             "ways under the call-site context (no ':' in names, values trimmed, no SP in methods), models replayed through Request()"),
 ]
